@@ -463,6 +463,9 @@ func genCase(c *Ctx) *hcase {
 			if bframes && typ == 1 && c.Rng.Chance(60) {
 				pts = dts + frameDur*int64(1+c.Rng.Intn(2))
 			}
+			if bframes && typ == 5 {
+				pts = dts + frameDur // with reordering every frame, key frames included, is presented later than decoded
+			}
 			if typ == 5 && c.Rng.Chance(20) {
 				// parameter sets travel as frames of their own in front of the IDR
 				k.evs = append(k.evs, event{kind: 'v', dts: nsOfTicks(dts), pts: nsOfTicks(pts), payload: k.spsOr()})
